@@ -82,6 +82,12 @@ Record alias := { aname : str; alts : nat; atys : nat; abody : ty }.
    arguments) -- `trait Similar<Rhs>: private::Sealed` is ("private::Sealed", []) *)
 Record trait_decl := { tname : str; tunsafe : bool; tpub : bool; tparams : list str;
                        tsupers : list (str * list str) }.
+(* the syntactic form of a type in an impl header: a bare type parameter of the impl, an application
+   of a named type constructor (local = it is a struct / enum declared in this crate), anything else *)
+Inductive tform := FParam (name : str) | FApp (name : str) (local : bool) | FOther (text : str).
+(* `impl<params> Trait<args> for Self where lhs: bound, ...`; ti_args = [] is the default (Rhs = Self) *)
+Record trait_impl := { ti_trait : str; ti_mod : str; ti_params : list str; ti_self : tform;
+                       ti_args : list tform; ti_where : list (str * str) }.
 Record mod_decl := { mname : str; mpub : bool; minline : bool }.
 Record reexport := { rmod : str; rvis : str; rpath : list str }.
 Record marker_impl := { mi_trait : trait; mi_unsafe : bool; mi_negative : bool; mi_target : str }.
@@ -332,6 +338,19 @@ Definition seal_covers_params (ts : list trait_decl) (parent tr m s : str) : boo
   | Some t => existsb (fun sp => str_eqb (m +++ "::" +++ s) (fst sp) && strs_eqb (snd sp) (tparams t)) (tsupers t)
   | None => false
   end.
+(* a seal is only a seal if the sealing trait is implemented for a CLOSED set of (Self, Rhs) pairs:
+   every impl's Self and every explicit trait argument is an application of a type constructor
+   declared in this crate -- never a bare type parameter (which a downstream type could inhabit
+   through whatever public bound the where-clause puts on it), never a foreign or structural type;
+   there is at least one impl and all of them live in the sealing module *)
+Definition form_closed (f : tform) : bool :=
+  match f with FApp _ true => true | _ => false end.
+Definition seal_impls_closed (is : list trait_impl) (parent m s : str) : bool :=
+  let mine := filter (fun i => str_eqb (ti_trait i) (parent +++ "::" +++ m +++ "::" +++ s)) is in
+  negb (Nat.eqb (List.length mine) 0) &&
+  forallb (fun i => form_closed (ti_self i) && forallb form_closed (ti_args i) &&
+                    str_eqb (ti_mod i) (parent +++ "::" +++ m)) mine.
+
 Definition has_super (ts : list trait_decl) (tr sup : str) : bool :=
   match lookup_trait ts tr with
   | Some t => existsb (fun sp => str_eqb sup (fst sp)) (tsupers t)
